@@ -231,6 +231,10 @@ def main(argv=None):
             if not a.no_kani and pdef.get('kani'):
                 from kx import kani
                 kfut = ex.submit(kani.run_groups, prop, pdef['kani'], a.tier, scratch)
+            efut = None
+            if pdef.get('enum'):
+                from kx import enumrun
+                efut = ex.submit(enumrun.run_groups, prop, pdef['enum'], a.tier, scratch)
             for f in futs:
                 try:
                     results.append(f.result())
@@ -242,6 +246,12 @@ def main(argv=None):
                     results.extend(kfut.result())
                 except Exception as e:
                     results.append(dict(unit='kani', engine='kani', obligations={}, failures=[], trusted=[], fns={}, canaries=[],
+                                        drops={}, solver_s=0, cmd='', undecided=[f'internal error: {e}\n{traceback.format_exc()[-800:]}']))
+            if efut is not None:
+                try:
+                    results.extend(efut.result())
+                except Exception as e:
+                    results.append(dict(unit='enum', engine='enum', obligations={}, failures=[], trusted=[], fns={}, canaries=[],
                                         drops={}, solver_s=0, cmd='', undecided=[f'internal error: {e}\n{traceback.format_exc()[-800:]}']))
         from vx import report
         rc = report.decide_and_write(prop, pdef, a.tier, seed, results, time.time() - t0, scratch)
